@@ -116,6 +116,8 @@ class Check:
         frames = traceback.extract_tb(exc.__traceback__)
         for fr in reversed(frames):
             fn = os.path.realpath(fr.filename)
+            if getattr(exc, "sut_fault", False) and fn.endswith(os.path.join("engines", "scripted_prng.py")):
+                continue   # the scripted generator rejecting its arguments exactly as numpy would
             if fn.startswith(verif):
                 return None
             if fn.startswith(root):
